@@ -51,8 +51,9 @@ func Joinable() [][2]string {
 
 var nbStyles = []c01.StyleD{{}, {At: 1 << 1}, {Fg: uint32(vaxis.IndexColor(1))}} // plain, bold, an indexed foreground
 
+// wd: the columns the terminal gives a cell's text (one or two, see width.go).
 func wd(g string) int {
-	w := uniseg.StringWidth(g)
+	w := termW(uniseg.StringWidth(g))
 	if w < 1 {
 		w = 1
 	}
